@@ -45,6 +45,7 @@ func runC02(c *Ctx) {
 	p := c.Prog
 	c.Rule("R2.1", "every store to the step sub-state is dominated by the gate of the transition it performs", 24)
 	c.Rule("R2.1i", "every store to the step index is one of: 1 (init/rollback), idx+1 from Ready with steps left, validated jump target, len(steps) on first deployment", 7)
+	c.Rule("R2.1k", "whenever the step index is written, the next-step index is re-derived from it (NextBatchIndex) before the function returns", 7)
 	c.Rule("R2.1j", "the jump compares the target step's replicas with the step that was current before the cursor moved", 2)
 	c.Rule("R2.2", "doCanaryUpgrade reports done only under the four BatchRelease facts and runBatchRelease done", 2)
 	c.Rule("R2.3", "doCanaryPaused reports done only after the pause duration elapsed (or the 100% last-step shortcut)", 3)
@@ -174,6 +175,24 @@ func runC02(c *Ctx) {
 			default:
 				c.Ob("R2.1i", construct+"other)", st.Pos(), false, "unrecognised write of the step index", "undecided: value "+vt.String()).WithFacts(fs)
 			}
+			// R2.1k: a stale NextStepIndex would be taken for a user's step-jump request on the next reconcile
+			isNext := func(in ssa.Instruction) bool {
+				s2, ok := in.(*ssa.Store)
+				if !ok {
+					return false
+				}
+				fa, ok := s2.Addr.(*ssa.FieldAddr)
+				if !ok {
+					return false
+				}
+				if n, _ := FieldOf(fa); n != "NextStepIndex" {
+					return false
+				}
+				return TermOf(s2.Val).Any(MCall("util.NextBatchIndex"))
+			}
+			reach, _ := CanReach(PointAfter(st), IsReturn, ReachOpts{CutInstr: isNext})
+			c.Ob("R2.1k", FuncName(fn)+"#pair(CurrentStepIndex,NextStepIndex)", st.Pos(), !reach, "NextStepIndex = NextBatchIndex(...) follows the index write on every path",
+				ifs(reach, "a return is reachable after the index write without re-deriving NextStepIndex (the stale value reads as a jump request)"))
 		}
 	}
 
